@@ -366,7 +366,8 @@ theorem run_accepts_iff (c : Caps) (name : Option String) :
     by_cases h : c.hasMethod "run" = true <;> by_cases h2 : c.callable = true <;>
       by_cases h3 : c.isFillComputeEl = true <;> simp [mkRun, runAccepts, h, h2, h3]
   | some n =>
-    by_cases h : c.isNone = true <;> by_cases h2 : c.hasMethod n = true <;> simp [mkRun, runAccepts, h, h2]
+    by_cases h : c.isNone = true <;> by_cases h2 : c.hasMethod n = true <;> by_cases h3 : c.givenCallable = true <;>
+      simp [mkRun, runAccepts, h, h2, h3]
 
 theorem run_rejects (c : Caps) (name : Option String) (h : runAccepts c name = false) :
     mkRun c name = .error .lenaTypeError := by
@@ -375,8 +376,12 @@ theorem run_rejects (c : Caps) (name : Option String) (h : runAccepts c name = f
     simp only [runAccepts, Bool.or_eq_false_iff] at h
     simp [mkRun, h.1.1, h.1.2, h.2]
   | some n =>
-    simp only [runAccepts, Bool.or_eq_false_iff] at h
-    simp [mkRun, h.1, h.2]
+    simp only [runAccepts] at h
+    by_cases hn : c.isNone = true
+    · simp only [hn, if_true] at h
+      simp [mkRun, hn, h]
+    · simp only [hn, Bool.false_eq_true, if_false] at h
+      simp [mkRun, hn, h]
 
 /-- `Run.run` is the element's own `run` if it has one, else the map of the callable over the flow, else
 fill-all-then-compute; with a method name it is that method (or the given function for `Run(None, run=f)`) -/
@@ -393,7 +398,7 @@ theorem run_preserves (c : Caps) (name : Option String) (m : RunMode) (h : mkRun
   | some n =>
     simp only [mkRun] at h
     split at h
-    · (subst_vars; simp_all [callBinding, sourceElBinding, runBinding, fillIntoBinding, fillComputeBinding])
+    · split at h <;> (subst_vars; simp_all [callBinding, sourceElBinding, runBinding, fillIntoBinding, fillComputeBinding])
     · split at h <;> (subst_vars; simp_all [callBinding, sourceElBinding, runBinding, fillIntoBinding, fillComputeBinding])
 
 theorem fillInto_accepts_iff (c : Caps) (name : Option String) :
